@@ -221,6 +221,28 @@ def run_case(law: Law, case: Any) -> tuple[str, list]:
     return _run_single(law, case)
 
 
+_SHAPE_MESSAGES = ("cannot reshape array", "not enough values to unpack", "too many values to unpack", "cannot convert Infinity", "cannot convert float NaN",
+                   "cannot convert float infinity")
+
+
+def _unusable_result(e: BaseException) -> Optional[Fail]:
+    """A law that fails while it takes a library result apart (reshape to the documented shape, unpack the documented number of
+    results, turn a coordinate into a rational number) has met a result of an unexpected shape, arity or a non-finite value: that is
+    an observation about the library, not a defect of the harness. Only these message patterns, only frames of the law modules."""
+    msg = str(e)
+    if not isinstance(e, (ValueError, OverflowError)) or not any(m in msg for m in _SHAPE_MESSAGES):
+        return None
+    tb = e.__traceback__
+    last = None
+    while tb is not None:
+        last = tb
+        tb = tb.tb_next
+    fn = last.tb_frame.f_code.co_filename if last is not None else ""
+    if os.sep + os.path.join("vp", "props") + os.sep not in fn:
+        return None
+    return Fail("MISMATCH", f"result-of-unexpected-shape-or-value@{os.path.basename(fn)}:{last.tb_frame.f_code.co_name}", msg[:200])
+
+
 def _run_single(law: Law, case: Any) -> tuple[str, list]:
     _CUR["case"], _CUR["seq"] = case, None
     try:
@@ -230,7 +252,8 @@ def _run_single(law: Law, case: Any) -> tuple[str, list]:
     except HarnessError:
         raise
     except Exception as e:  # noqa: BLE001
-        return "fail", [exc_fail(e)]
+        u = _unusable_result(e)
+        return "fail", [u if u is not None else exc_fail(e)]
     if isinstance(res, Batch):
         raise HarnessError("Batch result in run_case")
     fails = _normalise(res, case)
